@@ -16,7 +16,7 @@ def GTok (max : Nat) (hash : Bytes → Loc) (world : Store) (toks : List Tok) (b
   | _ => True
 
 theorem GTok.pred (world : Store) (toks : List Tok) : MarkPred max (GTok max hash world toks) := by
-  refine ⟨fun _ => trivial, ?_, ?_⟩
+  refine ⟨⟨fun _ => trivial, ?_⟩, ?_⟩
   · intro b fl n h
     cases fl with
     | none => trivial
